@@ -352,12 +352,12 @@ int cmd_worker(int argc, char **argv) {
     std::printf("\nPROBES");
     for (auto &kv : total.probes) std::printf(" %s=%llu", kv.first.c_str(), static_cast<unsigned long long>(kv.second));
     DiskTotals dt = disk_totals();
-    std::printf("\nDISK opens=%llu write_calls=%llu read_calls=%llu seeks=%llu bytes_written=%llu bytes_read=%llu open_fail=%llu budget=%llu eio=%llu short_write=%llu eintr_w=%llu eintr_r=%llu short_read=%llu\n",
+    std::printf("\nDISK opens=%llu write_calls=%llu read_calls=%llu seeks=%llu bytes_written=%llu bytes_read=%llu open_fail=%llu budget=%llu eio=%llu short_write=%llu eintr_w=%llu eintr_r=%llu short_read=%llu seek_fail=%llu\n",
                 static_cast<unsigned long long>(dt.opens), static_cast<unsigned long long>(dt.write_calls), static_cast<unsigned long long>(dt.read_calls),
                 static_cast<unsigned long long>(dt.seeks), static_cast<unsigned long long>(dt.bytes_written), static_cast<unsigned long long>(dt.bytes_read),
                 static_cast<unsigned long long>(dt.f_open_fail), static_cast<unsigned long long>(dt.f_budget), static_cast<unsigned long long>(dt.f_eio),
                 static_cast<unsigned long long>(dt.f_short_write), static_cast<unsigned long long>(dt.f_eintr_w), static_cast<unsigned long long>(dt.f_eintr_r),
-                static_cast<unsigned long long>(dt.f_short_read));
+                static_cast<unsigned long long>(dt.f_short_read), static_cast<unsigned long long>(dt.f_seek));
     std::printf("RATIOS worst_read_ratio=%.4f worst_heap_ratio=%.2f\n", total.worst_read_ratio, total.worst_heap_ratio);
     std::printf("DONE\n");
     return 0;
